@@ -56,6 +56,10 @@ optspec_t flexopts[] = {
 	,
 	{"--always-interactive", OPT_ALWAYS_INTERACTIVE, 0}
 	,
+	{"--ansi-definitions", OPT_ANSI_DEFINITIONS, 0}
+	,			/* Deprecated, ignored. */
+	{"--ansi-prototypes", OPT_ANSI_PROTOTYPES, 0}
+	,			/* Deprecated, ignored. */
 	{"--array", OPT_ARRAY, 0}
 	,
 	{"-b", OPT_BACKUP, 0}
